@@ -5,7 +5,7 @@ ID="$1"; WT="$2"; OUT="/verif/seeded/$ID/confirm.txt"
 cd "$WT" || exit 2
 {
 echo "== with change: cargo test --offline --lib"
-cargo test --offline --lib -j 8 2>&1 | grep -E "^test result|FAILED" | grep -v "s3" | head -5
+cargo test --offline --lib -j 8 -- --test-threads 1 2>&1 | grep -E "^test result|FAILED" | grep -v "s3" | head -5
 echo "== with change: demo (expected to FAIL)"
 cargo test --offline --test seed_demo -j 8 2>&1 | grep -E "^test result|panicked" | head -3
 git diff -- src > /tmp/seed_$ID.diff
